@@ -4,14 +4,15 @@ from vf.props import c10
 
 LEVEL = "model_checking"
 TECHNIQUE = ("CBMC bounded symbolic execution of the real cli/yara.c file queue (file_queue_init/put/get/finish) as an inductive step from an "
-             "arbitrary ring state satisfying the queue invariant (semaphores as counters, mutex discipline asserted), plus the scanner-reuse "
+             "arbitrary ring state satisfying the queue invariant (semaphores as counters, mutex discipline asserted), the scanning_thread consumer loop over that queue with arbitrary scan results, plus the scanner-reuse "
              "inductive step shared with C10 (every scan exit re-establishes the at-rest state)")
 ASSUMPTIONS = [
     "CBMC refuses real threads over cli/yara.c (pointer-typed shared state, DESIGN P15): schedules are covered at CALL granularity - each put/get/finish is atomic "
     "(justified by its wait / lock / unlock / release structure, which the mutex and semaphore stubs assert) and is checked from EVERY ring state satisfying the invariant, "
     "which covers call interleavings of any length and any thread count by induction",
     "MAX_QUEUED_FILES is the real 64 (head, tail, count symbolic over the whole ring); semaphore = counter, a wait on 0 is a disabled step; timeouts (deadline) not modelled",
-    "thread-count independence of the OUTPUT is composed, not solved: exactly-once FIFO delivery (H1) + per-thread scanner reuse leaves no trace (H2 = C10.H1) + shared rules are not written (C09) + compiled vs source rules (C08)",
+    "H3: the consumer loop of scanning_thread runs over the real queue with <= 2 queued files and arbitrary scan results / open failures: the thread stops only when the queue gave it NULL, each file is scanned once",
+    "thread-count independence of the OUTPUT is composed, not solved: exactly-once FIFO delivery (H1) + consumers drain the queue whatever the scans return (H3) + per-thread scanner reuse leaves no trace (H2 = C10.H1) + shared rules are not written (C09) + compiled vs source rules (C08)",
     "directory walking, output formatting and its mutex, option handling, exit status, yarac are outside",
 ]
 LEVEL_TEXT = "Inductive step over the queue invariant: no queued file is overwritten or lost, every file is delivered exactly once in FIFO order, every consumer terminates after finish; scanner reuse re-establishes the at-rest state on every exit."
